@@ -285,6 +285,9 @@ class Tr:
                 die(w + ": REGISTERS entry %r" % item)
             regs.append(mm.group(1))
         t["registers"] = regs
+        if "context_flags" in block:
+            die(w + ": the register methods mention context_flags; C18/Model.v does not carry the flags (behaviour is modelled as "
+                    "independent of them) — extend the model before translating this")
         fns = self.fns_of_block(block, w)
         allowed = {"get_register_always", "set_register", "memoize_register", "register_is_valid",
                    "stack_pointer_register_name", "instruction_pointer_register_name"}
@@ -554,8 +557,22 @@ class Tr:
             die("context.rs: CpuContext impls %s do not match MinidumpRawContext payloads %s" % (sorted(tables), sorted(variants.values())))
         self.widths = {k: t["width"] for k, t in tables.items()}
         disp = self.parse_dispatch(variants)
+        cpu_flags = {}
+        m = re.search(r"pub struct ContextFlagsCpu\s*:\s*u32\s*\{", self.fmt_src)
+        if not m:
+            die("format.rs: bitflags ContextFlagsCpu not found")
+        e = match_brace(self.fmt_src, m.end() - 1)
+        for mm in re.finditer(r"const (CONTEXT_\w+)\s*=\s*(0x[0-9a-fA-F]+|\d+)\s*;", self.fmt_src[m.end():e]):
+            cpu_flags[mm.group(1)] = int(mm.group(2), 0)
+        if not cpu_flags:
+            die("format.rs: no constants in ContextFlagsCpu")
         out = []
         for v, cname in variants.items():
+            fw = self.structs[cname].get("context_flags")
+            if not fw or fw[1] is not None:
+                die("format.rs: %s has no scalar context_flags field" % cname)
+            tables[cname]["flags_width"] = fw[0]
+            tables[cname]["cpu_flags"] = cpu_flags
             t = dict(tables[cname])
             t["variant"] = v
             t["sp_loc"] = disp[v]["sp_loc"]
@@ -637,8 +654,13 @@ def names_json(tables):
         for r in t["registers"]:
             if r not in names:
                 names.append(r)
+        aliases = {}
+        for ps, c in t["memo"]:
+            for p in ps:
+                aliases[p] = c
         d[t["variant"]] = {"type": t["name"], "width": t["width"], "registers": t["registers"], "names": names,
-                           "sp_name": t["sp_name"], "ip_name": t["ip_name"]}
+                           "sp_name": t["sp_name"], "ip_name": t["ip_name"], "aliases": aliases,
+                           "flags_width": t["flags_width"], "cpu_flags": t["cpu_flags"]}
     return json.dumps(d, indent=1, sort_keys=True) + "\n"
 
 
